@@ -52,9 +52,11 @@ def build_handler(comm, case):
     layouts = {n: list(o) for n, o in case['layouts']}
     try:
         return getLayoutHandler(comm, layouts, list(case['nprocs']), eta)
-    except RuntimeError as e:
-        if cm.refusal(e):
-            raise Skip(str(e))
+    except Exception as e:   # noqa
+        # a set of orderings that cannot be connected by single-axis swaps is refused (any exception
+        # type, any message, but on every rank); a connected set must be accepted
+        if not cm.layouts_connected([o for _, o in case['layouts']], case['nprocs']):
+            raise Skip('%s: %s' % (type(e).__name__, e))
         raise
 
 
@@ -131,7 +133,7 @@ def run(case, tape=None):
 
     def post(w, results):
         check_tiling(case, results)
-        n_a2a = sum(1 for rec in w.log if rec[3] == 'coll' and rec[6] == 'Alltoall')
+        n_a2a = sum(1 for rec in w.log if rec[3] == 'coll' and rec[6] in ('Alltoall', 'Alltoallv'))
         shape, nprocs = case['shape'], case['nprocs']
         probes = {}
         if nprocs[0] == 1 and len(nprocs) > 1:
